@@ -22,13 +22,14 @@ RULE = (
     "advances (keep-alive expiry).  Oracle: every response delivered carries the exchange marker of its own request "
     "in status line headers and body; a connection that saw surplus/unsolicited/truncated/unread/failed exchanges is "
     "never handed another request; a reused connection was created for the same independently computed (host, port, "
-    "tls, proxy, proxy identity).  Non-trivial = >= 2 requests for one endpoint and at least one misbehaviour.  "
+    "tls, proxy, proxy identity).  Non-trivial = >= 2 requests for one endpoint and at least one misbehaviour, or >= 2 requests for one host:port whose "
+    "connection keys differ (scheme, ssl= setting, server_hostname, proxy, proxy identity) with a reusable connection in the pool.  "
     "distinct = canonical history."
 )
 ASSUMPTIONS = [
     "requests are issued one after another (histories, not concurrent schedules); peers answer as soon as a request head is complete",
     "surplus / unsolicited bytes are only injected while no later request has been handed to that connection, so any such byte reaching a later response is a violation",
-    "TLS is not performed: https only changes the connection key",
+    "TLS is not performed: https and the per-request ssl= setting (default / False / two fingerprints / two contexts / two server_hostname values) only change the connection key",
 ]
 
 for _n in ("aiohttp.client", "aiohttp.internal", "asyncio"):
@@ -36,6 +37,18 @@ for _n in ("aiohttp.client", "aiohttp.internal", "asyncio"):
 
 HOSTS = ["h1.example", "h2.example", "h1.example.org"]
 PORTS = [80, 8080]
+# per-request TLS settings (aiohttp keys connections on them: a connection verified one way must not carry a request
+# that asked for another verification).  Index 0 = default verification.
+def _tls_settings():
+    import ssl
+
+    import aiohttp
+    return [{}, {"ssl": False}, {"ssl": aiohttp.Fingerprint(b"\x01" * 32)}, {"ssl": aiohttp.Fingerprint(b"\x02" * 32)},
+            {"ssl": ssl.create_default_context()}, {"ssl": ssl.create_default_context()},
+            {"server_hostname": "alt.example"}, {"server_hostname": "other.example"}]
+
+
+TLS_SETTINGS: list = []
 PROXIES = [None, ("http://proxy.example:3128", "alice", "t1"), ("http://proxy.example:3128", "bob", "t1"), ("http://proxy.example:3128", "alice", "t2")]
 
 
@@ -76,7 +89,8 @@ class World:
 
     def endpoint_key(self, op: dict) -> tuple:
         proxy = PROXIES[op.get("proxy", 0)]
-        return (HOSTS[op["h"]], PORTS[op["p"]], bool(op.get("tls")), proxy[0] if proxy else None, proxy[1:] if proxy else None)
+        tls = bool(op.get("tls"))
+        return (HOSTS[op["h"]], PORTS[op["p"]], tls, op.get("tlscfg", 0) if tls else 0, proxy[0] if proxy else None, proxy[1:] if proxy else None)
 
     def on_request(self, peer: Peer, head: bytes) -> None:
         m = re.match(rb"(?:GET|POST|HEAD) (?:https?://[^/ ]+)?/r(\d+) HTTP/1\.1", head)
@@ -193,7 +207,7 @@ def execute(case: dict) -> dict:
 
     loop = new_loop()
     loop.max_iters = 300000  # cases are small: a busy loop is reported after 3e5 iterations, not 3e6
-    stats = {"misbehaviour": 0, "same_key_pairs": 0, "requests": 0, "reused": 0}
+    stats = {"misbehaviour": 0, "same_key_pairs": 0, "requests": 0, "reused": 0, "other_key_same_host": 0}
     saved_mono = connector_mod.monotonic
     connector_mod.monotonic = loop.time  # keep-alive age under virtual time
     try:
@@ -252,6 +266,8 @@ def execute(case: dict) -> dict:
                     k = world.endpoint_key(op)
                     if k in seen_keys:
                         stats["same_key_pairs"] += 1
+                    if any(o[:2] == k[:2] and o != k for o in seen_keys):
+                        stats["other_key_same_host"] += 1
                     seen_keys[k] = True
                     scheme = "https" if op.get("tls") else "http"
                     url = f"{scheme}://{HOSTS[op['h']]}:{PORTS[op['p']]}/r{n}"
@@ -260,6 +276,10 @@ def execute(case: dict) -> dict:
                     if proxy:
                         kw["proxy"] = proxy[0].replace("http://", f"http://{proxy[1]}:pw-{proxy[1]}@")
                         kw["proxy_headers"] = {"X-Tenant": proxy[2]}
+                    if op.get("tls") and op.get("tlscfg", 0):
+                        if not TLS_SETTINGS:
+                            TLS_SETTINGS.extend(_tls_settings())
+                        kw.update(TLS_SETTINGS[op["tlscfg"]])
                     before = len(world.peers)
                     res: dict = {"n": n}
                     try:
@@ -366,8 +386,10 @@ def execute(case: dict) -> dict:
 
 def body(rec: Rec, case: dict) -> None:
     stats = execute(case)
-    nt = stats["same_key_pairs"] >= 1 and stats["misbehaviour"] >= 1
+    nt = (stats["same_key_pairs"] >= 1 and stats["misbehaviour"] >= 1) or stats["other_key_same_host"] >= 1
     labels = []
+    if stats["other_key_same_host"]:
+        labels.append("other-key-same-host")
     if stats["reused"]:
         labels.append("reused")
     if stats["misbehaviour"]:
@@ -379,6 +401,8 @@ def body(rec: Rec, case: dict) -> None:
                 labels.append("surplus:" + ps["surplus"] + ":" + ps.get("surplus_when", "same"))
             if op.get("proxy"):
                 labels.append("proxy")
+            if op.get("tls") and op.get("tlscfg"):
+                labels.append("tls-setting")
         elif op["op"] == "unsolicited":
             labels.append("unsolicited")
     rec.case(case, nt, sorted(set(labels)))
@@ -387,11 +411,12 @@ def body(rec: Rec, case: dict) -> None:
 # ------------------------------------------------------------------ generators
 @st.composite
 def cases(draw, narrow: bool):
-    nhosts = 1 if narrow else 3
+    nhosts = 1 if narrow is True else 3
     req = st.fixed_dictionaries({
         "op": st.just("req"),
         "h": st.integers(0, nhosts - 1), "p": st.integers(0, 0 if narrow else 1), "tls": st.booleans() if not narrow else st.just(False),
         "proxy": st.sampled_from([0, 0, 0, 1, 2, 3]) if not narrow else st.just(0),
+        "tlscfg": st.sampled_from([0, 0, 0, 1, 2, 3, 4, 5, 6, 7]) if not narrow else st.just(0),
         "read": st.sampled_from(["full", "full", "full", "stream", "stream", "partial", "none"]),
         "end": st.sampled_from(["release", "release", "close"]),
         "settle": st.integers(0, 4),
@@ -414,6 +439,19 @@ def cases(draw, narrow: bool):
     uns = st.fixed_dictionaries({"op": st.just("unsolicited"), "conn": st.integers(0, 3), "kind": st.sampled_from(["response", "two_responses", "partial", "garbage"]),
                                  "settle": st.integers(0, 4)})
     tick = st.fixed_dictionaries({"op": st.just("tick"), "dt": st.sampled_from([0.001, 1.0, 14.0, 16.0])})
+    if narrow == "keys":
+        # key separation in isolation: one host and port, well-behaved peers, only the key components vary, so nearly
+        # every request finds an idle connection of a DIFFERENT key waiting in the pool
+        clean = {"framing": "cl", "status": 200, "announce_close": None, "bad_coding": False, "rest_when": "after", "size": 10,
+                 "surplus": None, "surplus_when": "same", "later_ms": 0, "truncate": None, "close_after": False}
+        kreq = st.fixed_dictionaries({
+            "op": st.just("req"), "h": st.just(0), "p": st.integers(0, 1), "tls": st.sampled_from([True, True, True, False]),
+            "proxy": st.sampled_from([0, 0, 1, 2, 3]), "tlscfg": st.integers(0, 7),
+            "read": st.just("full"), "end": st.just("release"), "settle": st.integers(0, 2),
+            "expect": st.just(False), "head": st.just(False), "peer": st.just(clean),
+        })
+        ops = draw(st.lists(kreq, min_size=2, max_size=6))
+        return {"ops": [dict(o, peer=dict(o["peer"])) for o in ops], "s2c": []}
     ops = draw(st.lists(st.one_of(req, req, req, uns, tick), min_size=2, max_size=8))
     for o in ops:
         if o["op"] == "req":
@@ -440,7 +478,7 @@ def cases(draw, narrow: bool):
     return {"ops": ops, "s2c": draw(st.sampled_from([[], [], [1], [7, 3]]))}
 
 
-def unit_hyp(rec: Rec, n: int, offset: int, narrow: bool) -> None:
+def unit_hyp(rec: Rec, n: int, offset: int, narrow) -> None:
     hyp.run(rec, cases(narrow), body, n, seed_offset=offset, max_root_causes=5)
 
 
@@ -448,6 +486,7 @@ def units(tier: str, seed: int) -> list[Unit]:
     n = 400 if tier == "quick" else 6000
     us = [Unit(f"narrow{i}", unit_hyp, {"n": n, "offset": i, "narrow": True}) for i in range(10)]
     us += [Unit(f"lattice{i}", unit_hyp, {"n": n, "offset": 30 + i, "narrow": False}) for i in range(6)]
+    us += [Unit(f"keys{i}", unit_hyp, {"n": n, "offset": 60 + i, "narrow": "keys"}) for i in range(2)]
     return us
 
 
